@@ -201,6 +201,14 @@ M('C05', 'tf-mask-rank-lt', GR, "    if options.skip_preconditioning_rank1 and x
 M('C05', 'tf-mask-all-dims', GR, "    if any(s > options.skip_preconditioning_any_dim_gt for s in x.shape):", "    if all(s > options.skip_preconditioning_any_dim_gt for s in x.shape):")
 TW('C05', 'twin-tf-multiplier-renamed', GR, "      base_norm = jnp.linalg.norm(base)\n      multiplier = jnp.where(\n          base_norm > 0.0, jnp.linalg.norm(graft_upd) / base_norm, 0.0\n      )", "      nb = jnp.linalg.norm(base)\n      ng = jnp.linalg.norm(graft_upd)\n      multiplier = jnp.where(0.0 < nb, ng / nb, 0.0)")
 
+M(['C05', 'C02'], 'ds-skip-rank-inclusive', DS, "    return len(param.shape) < skip_preconditioning_rank_lt or any(", "    return len(param.shape) <= skip_preconditioning_rank_lt or any(")
+M(['C05', 'C02'], 'ds-skip-dim-inclusive', DS, "        [s > skip_preconditioning_dim_size_gt for s in param.shape])", "        [s >= skip_preconditioning_dim_size_gt for s in param.shape])")
+M(['C05', 'C02'], 'ds-skip-and', DS, "    return len(param.shape) < skip_preconditioning_rank_lt or any(", "    return len(param.shape) < skip_preconditioning_rank_lt and any(")
+TW(['C05', 'C02'], 'twin-ds-skip-respelled', DS, "    return len(param.shape) < skip_preconditioning_rank_lt or any(\n        [s > skip_preconditioning_dim_size_gt for s in param.shape])", "    too_big = any(skip_preconditioning_dim_size_gt < s for s in param.shape)\n    return too_big or skip_preconditioning_rank_lt > param.ndim")
+M('C02', 'init-statistics-eps-divided', DS, "            matrix_epsilon * jnp.eye(s[0], dtype=jnp.float32) for s in shapes\n", "            jnp.eye(s[0], dtype=jnp.float32) / matrix_epsilon for s in shapes\n")
+M('C02', 'init-dense-preconditioner-zero', DS, "            jnp.eye(s[0], s[1], dtype=jnp.float32) * (s[0] == s[1])\n", "            jnp.eye(s[0], s[1], dtype=jnp.float32) * (s[0] != s[1])\n")
+M('C02', 'sharded-init-statistics-no-eps', DS, "            matrix_epsilon * jnp.eye(max_size, dtype=jnp.float32)\n            for s in shapes\n        ]\n        pd = precond_dim(max_size)", "            jnp.eye(max_size, dtype=jnp.float32)\n            for s in shapes\n        ]\n        pd = precond_dim(max_size)")
+
 # ------------------------------------------------------------------ C06
 M('C06', 'merge-not-reversed', DS, "    for (i, indices) in reversed(self._splits):", "    for (i, indices) in self._splits:")
 M('C06', 'merge-group-off-by-one', DS, "      n = len(indices) + 1\n", "      n = len(indices)\n")
@@ -253,6 +261,13 @@ TW('C07', 'twin-init-helper-inline', DS, "          init_avg_grad(param, frequen
 M('C07', 'sm3-init-update-swapped', SM3, "  return optax.GradientTransformation(init_fn, update_fn)", "  return optax.GradientTransformation(update_fn, init_fn)")
 M('C07', 'graft-spec-fn-as-update', GR, "      init=init_fn, update=update_fn, init_partition_spec=init_partition_spec_fn", "      init=init_fn, update=init_partition_spec_fn, init_partition_spec=update_fn")
 M('C07', 'sgd-graft-update-as-init', GR, "      grad_transform.init,\n      grad_transform.update,\n      optax.EmptyState,", "      grad_transform.update,\n      grad_transform.init,\n      optax.EmptyState,")
+M(['C07', 'C14'], 'sharded-update-stats-records-swapped', DS, "        stats=ShardedShampooStats(new_global_stats, new_local_stats))\n    return updates, new_shampoo_state", "        stats=ShardedShampooStats(new_local_stats, new_global_stats))\n    return updates, new_shampoo_state")
+M(['C07', 'C14'], 'sharded-update-max-size-from-count-axis', DS, "    max_size = global_stats.statistics.shape[1]\n", "    max_size = global_stats.statistics.shape[0]\n")
+TW('C07', 'twin-sharded-update-exponents-times-one', DS, "        new_stacked_padded_statistics, new_conditional_preconditioners,\n        global_stats.exponents)", "        new_stacked_padded_statistics, new_conditional_preconditioners,\n        global_stats.exponents * 1)")
+M(['C07', 'C14'], 'sharded-update-exponents-recomputed', DS, "        new_stacked_padded_statistics, new_conditional_preconditioners,\n        global_stats.exponents)", "        new_stacked_padded_statistics, new_conditional_preconditioners,\n        jnp.ones_like(global_stats.exponents))")
+M('C13', 'sharded-update-dummy-rows-inverted', DS, "    if not new_padded_statistics:\n      to_pad = num_devices_for_pjit", "    if new_padded_statistics:\n      to_pad = num_devices_for_pjit")
+TW('C13', 'twin-sharded-update-dummy-rows-len', DS, "    if not new_padded_statistics:\n      to_pad = num_devices_for_pjit", "    if len(new_padded_statistics) == 0:\n      to_pad = num_devices_for_pjit")
+
 # ------------------------------------------------------------------ C08
 M(['C08', 'C15'], 'F7-global-eig-cutoff', TS, "  mask = w <= eps * jnp.max(w, axis=-1, keepdims=True)", "  mask = w <= eps * jnp.max(w)")
 M('C08', 'cutoff-over-blocks-axis', TS, "  mask = w <= eps * jnp.max(w, axis=-1, keepdims=True)", "  mask = w <= eps * jnp.max(w, axis=0, keepdims=True)")
